@@ -603,7 +603,9 @@ def check_history(case, rec):
                     def setter(v=op["v"]):
                         gen.mode_no = v
 
+                    before = _base_field(srf, ref, case)
                     _expect_odd_refused(setter, f"op {i}: generator.mode_no = {op['v']}", otags)
+                    _require_unchanged(before, srf, ref, case, f"op {i}: generator.mode_no = {op['v']}", otags)
                 elif k == "param":
                     _apply_param(srf.model, ref.spec, op)
                 elif k == "reassign":
@@ -626,6 +628,7 @@ def check_history(case, rec):
                         continue
                     ukw = {}
                     how = op["model"]
+                    before = _base_field(srf, ref, case) if odd and how in ("none", "same", "copy") else None
                     rec.label(
                         "update_model_" + how + ("+seed" if op["seed"] is not None else "")
                         + ("+period" if op["period"] is not None else "") + ("+modes" if op["modes"] is not None else "")
@@ -661,6 +664,8 @@ def check_history(case, rec):
                             f"{L.tolist()} (before: {ref.period.tolist()}); the mode mesh still belongs to the old period",
                             dict(otags, kind="rejected_update_half_applied"),
                         )
+                        if before is not None:
+                            _require_unchanged(before, srf, ref, case, f"op {i}: generator.update({_fmt(ukw)})", otags)
                     else:
                         gen.update(**ukw)
                         if op["seed"] is not None and op["seed"] != "same":
@@ -679,6 +684,23 @@ def check_history(case, rec):
         varied = varied or v
     rec.label("varies" if varied else "flat_axis")
     rec.nontrivial(bool(varied and changes >= 1))
+
+
+def _base_field(srf, ref, case):
+    """Field at the case's base points for the current settings (used to compare before / after a refused op)."""
+    U = np.array(case["u"], dtype=float).reshape(ref.dim, -1)
+    P = ref.rotation() @ (U * ref.period[:, None])
+    return np.array(srf(P), dtype=float).reshape(-1)
+
+
+def _require_unchanged(before, srf, ref, case, what, tags):
+    after = _base_field(srf, ref, case)
+    same = before.shape == after.shape and bool(np.array_equal(before, after, equal_nan=True))
+    require(
+        same,
+        f"{what} was refused (odd mode_no) but the field changed: before {before.tolist()}, after {after.tolist()}",
+        dict(tags, kind="rejected_update_half_applied"),
+    )
 
 
 def _fmt(ukw):
